@@ -73,6 +73,21 @@ func histEq(st *State, xre *regexp.Regexp, c string) (int, *Fact) {
 		if f.Eq != "" {
 			return b2i(f.Eq == c), f
 		}
+		if len(f.In) > 0 {
+			found := false
+			for _, x := range f.In {
+				if x == c {
+					found = true
+				}
+			}
+			if !found {
+				return 0, f
+			}
+			if len(f.In) == 1 {
+				return 1, f
+			}
+			return -1, f
+		}
 		for _, ne := range f.Ne {
 			if ne == c {
 				return 0, f
@@ -85,6 +100,27 @@ func histEq(st *State, xre *regexp.Regexp, c string) (int, *Fact) {
 
 // histEqIn evaluates "X ∈ set".
 func histEqIn(st *State, xre *regexp.Regexp, set []string) int {
+	// a decided membership fact: X ∈ In with In ⊆ set is true
+	for _, k := range sortedKeys(st.hist) {
+		f := st.hist[k]
+		if f.Kind == "eq" && xre.MatchString(f.X) && f.Eq == "" && len(f.In) > 0 {
+			all := true
+			for _, x := range f.In {
+				ok := false
+				for _, c := range set {
+					if c == x {
+						ok = true
+					}
+				}
+				if !ok {
+					all = false
+				}
+			}
+			if all {
+				return 1
+			}
+		}
+	}
 	res := 0
 	for _, c := range set {
 		v, _ := histEq(st, xre, c)
